@@ -2,16 +2,26 @@
 # ./run.sh <Cnn> quick|thorough            run the check for one property against /repo's working tree
 # ./run.sh <Cnn> replay <file>             re-execute one recorded case
 # Rebuilds the check binary (and therefore tabula, through the module replace => /repo) on every call.
+# VERIF_REPO=<dir> (development only): build against another checkout of tabula (scratch worktree with a
+# seeded change or a candidate fix) instead of /repo. Registered commands never set it.
 set -u
 cd "$(dirname "$0")"
 export GOFLAGS=-mod=mod GOPROXY=off GOSUMDB=off GOTOOLCHAIN=local CGO_ENABLED=0
 id="$1"; shift
 lc=$(echo "$id" | tr 'A-Z' 'a-z')
 mkdir -p .build/bin evidence
+bin=".build/bin/$lc"
+modflag=""
+if [ -n "${VERIF_REPO:-}" ]; then
+  tag=$(echo "$VERIF_REPO" | md5sum | cut -c1-8)
+  sed "s#=> /repo#=> $VERIF_REPO#" go.mod > ".build/alt-$tag.mod"; cp go.sum ".build/alt-$tag.sum"
+  modflag="-modfile=$PWD/.build/alt-$tag.mod"; bin=".build/bin/$lc-$tag"
+  export VERIF_MODFLAG="$modflag"
+fi
 if [ -x "checks/$lc/build.sh" ]; then
   # checks that need an instrumented (overlay) build of tabula bring their own build step
-  "checks/$lc/build.sh" ".build/bin/$lc" > ".build/$lc.build.log" 2>&1 || { echo "HARNESS-ERROR $id: build failed (see below)"; tail -40 ".build/$lc.build.log"; exit 2; }
+  "checks/$lc/build.sh" "$bin" > ".build/$lc.build.log" 2>&1 || { echo "HARNESS-ERROR $id: build failed (see below)"; tail -40 ".build/$lc.build.log"; exit 2; }
 else
-  go build -o ".build/bin/$lc" "./checks/$lc" > ".build/$lc.build.log" 2>&1 || { echo "HARNESS-ERROR $id: build failed (see below)"; tail -40 ".build/$lc.build.log"; exit 2; }
+  go build $modflag -o "$bin" "./checks/$lc" > ".build/$lc.build.log" 2>&1 || { echo "HARNESS-ERROR $id: build failed (see below)"; tail -40 ".build/$lc.build.log"; exit 2; }
 fi
-exec ".build/bin/$lc" "$@"
+exec "$bin" "$@"
